@@ -84,6 +84,95 @@ def check_file(buf, expect, fails, label, case):
     return summ
 
 
+def general_case(rng, tmpdir, fails, stats, seen):
+    """a file written through the general NITFWriter: one blocked (IC=NC) or block-masked (IC=NM) image plus text / DES / RES segments"""
+    import io
+    from sarpy.io.general.nitf import NITFWritingDetails, NITFWriter, NITFReader, ImageSubheaderManager, DESSubheaderManager, \
+        TextSubheaderManager, RESSubheaderManager
+    from sarpy.io.general.nitf_elements.nitf_head import NITFHeader
+    from sarpy.io.general.nitf_elements.image import ImageSegmentHeader, MaskSubheader, ImageBands, ImageBand
+    from sarpy.io.general.nitf_elements.des import DataExtensionHeader
+    from sarpy.io.general.nitf_elements.text import TextSegmentHeader
+    from sarpy.io.general.nitf_elements.res import ReservedExtensionHeader
+    nppbv, nppbh = rng.choice([4, 8, 16]), rng.choice([4, 8, 32])
+    nbpc, nbpr = rng.randint(1, 4), rng.randint(1, 3)
+    rows = rng.randint((nbpc - 1) * nppbv + 1, nbpc * nppbv)
+    cols = rng.randint((nbpr - 1) * nppbh + 1, nbpr * nppbh)
+    nbpp = rng.choice([8, 16])
+    masked = rng.random() < 0.6
+    blocks = nbpc * nbpr
+    absent = sorted(rng.sample(range(blocks), rng.randint(0, blocks - 1))) if masked and rng.random() < 0.6 else []
+    ntext, ndes, nres = rng.randint(0, 2), rng.randint(0, 2), rng.randint(0, 1)
+    target = rng.choice(['path', 'bytesio'])
+    case = {'writer': 'NITF', 'rows': rows, 'cols': cols, 'nbpp': nbpp, 'block': [nppbv, nppbh], 'grid': [nbpc, nbpr], 'masked': masked,
+            'absent': absent, 'text': ntext, 'des': ndes, 'res': nres, 'target': target}
+    seen.add(('NITF', masked, bool(absent), nbpp, min(blocks, 3), ntext > 0, ndes > 0, nres > 0, target))
+    block_bytes = nppbv * nppbh * nbpp // 8
+    hdr = ImageSegmentHeader(IID1='TEST', NROWS=rows, NCOLS=cols, PVTYPE='INT', IREP='MONO', ICAT='VIS', ABPP=nbpp, NBPP=nbpp,
+                             IC='NM' if masked else 'NC', IMODE='B', NBPR=nbpr, NBPC=nbpc, NPPBH=nppbh, NPPBV=nppbv, IDLVL=1, IALVL=0,
+                             ILOC='0000000000', ICORDS='', Bands=ImageBands(values=[ImageBand(IREPBAND='M')]))
+    if masked:
+        offsets, cur = [], 0
+        for b in range(blocks):
+            if b in absent:
+                offsets.append(0xFFFFFFFF)
+            else:
+                offsets.append(cur)
+                cur += block_bytes
+        hdr.mask_subheader = MaskSubheader(band_depth=1, blocks=blocks, IMDATOFF=10 + 4 * blocks, BMRLNTH=4, TMRLNTH=0, TPXCDLNTH=0,
+                                           BMR=numpy.array([offsets], dtype='uint32'), TMR=None)
+    texts = tuple(TextSubheaderManager(TextSegmentHeader(TEXTID=f'T{k}', TXTITL='note'), ('text %d ' % k).encode() * rng.randint(1, 9)) for k in range(ntext))
+    dess = tuple(DESSubheaderManager(DataExtensionHeader(), b'<d>' + bytes(rng.randrange(65, 91) for _ in range(rng.randint(0, 40))) + b'</d>') for k in range(ndes))
+    ress = tuple(RESSubheaderManager(ReservedExtensionHeader(), bytes(rng.randrange(256) for _ in range(rng.randint(1, 30)))) for k in range(nres))
+    data = numpy.array([[rng.randrange(1, 2 ** nbpp) for _ in range(cols)] for _ in range(rows)], dtype='uint8' if nbpp == 8 else 'uint16')
+    try:
+        details = NITFWritingDetails(NITFHeader(CLEVEL=3, OSTAID='verif', FDT='20200101000000', FTITLE='general', FL=0),
+                                     image_managers=(ImageSubheaderManager(hdr), ), image_segment_collections=((0, ), ),
+                                     text_managers=texts or None, des_managers=dess or None, res_managers=ress or None)
+        path = os.path.join(tmpdir, 'general.ntf')
+        if target == 'path':
+            with NITFWriter(path, details, check_existence=False) as w:
+                w.write(data)
+            buf = open(path, 'rb').read()
+        else:
+            bio = io.BytesIO()
+            with NITFWriter(bio, details) as w:
+                w.write(data)
+            buf = bio.getvalue()
+    except Exception as e:
+        fails.append({'kind': 'write', 'msg': f'general NITF write raised {type(e).__name__}: {e}', 'case': case})
+        return
+    stats['files'] = stats.get('files', 0) + 1
+    stats['general_files'] = stats.get('general_files', 0) + 1
+    summ = check_file(buf, [(rows, cols)], fails, 'NITF', case)
+    if summ is None:
+        return
+    # the extra segments carry exactly the bytes handed over, at their declared offsets
+    want = {'text': [bytes(m.item_bytes) for m in texts], 'des': [bytes(m.item_bytes) for m in dess], 'res': [bytes(m.item_bytes) for m in ress]}
+    for key, i, off, sub, dat in summ['layout']:
+        if key in want and buf[off + sub:off + sub + dat] != want[key][i]:
+            fails.append({'kind': 'structure', 'msg': f'NITF: {key} segment {i} data at its declared offset {off + sub} is not the data handed to the writer', 'case': case})
+    # pixels of the present blocks sit where the mask says
+    im = summ['images'][0]
+    d0 = im['data_offset'] + (10 + 4 * blocks if masked else 0)
+    k = 0
+    for b in range(blocks):
+        if b in absent:
+            continue
+        br, bc = divmod(b, nbpr)
+        blk = numpy.frombuffer(buf[d0 + k * block_bytes:d0 + (k + 1) * block_bytes], dtype='>u1' if nbpp == 8 else '>u2')
+        k += 1
+        if blk.size != nppbv * nppbh:
+            fails.append({'kind': 'structure', 'msg': f'NITF: block {b} is cut short by the end of the file', 'case': case})
+            break
+        blk = blk.reshape(nppbv, nppbh)
+        r1, c1 = min(rows, (br + 1) * nppbv), min(cols, (bc + 1) * nppbh)
+        exp = data[br * nppbv:r1, bc * nppbh:c1]
+        if not numpy.array_equal(blk[:exp.shape[0], :exp.shape[1]], exp):
+            fails.append({'kind': 'structure', 'msg': f'NITF: pixels of block {b} are not at the offset its mask record / block order gives', 'case': case})
+            break
+
+
 def run(tier):
     sarpy_guard()
     logging.disable(logging.CRITICAL)
@@ -186,6 +275,8 @@ def run(tier):
                 continue
             stats['files'] = stats.get('files', 0) + 1
             check_file(buf, shapes, fails, 'SIDD', case)
+        for k in range(30 if tier == 'quick' else 300):
+            general_case(rng, tmpdir, fails, stats, seen)
     finally:
         shutil.rmtree(tmpdir, ignore_errors=True)
     try:
@@ -215,7 +306,8 @@ def run(tier):
         'evaluations': stats.get('files', 0) + stats.get('model_cases', 0),
         'distinct_nontrivial': len(seen),
         'rule': 'freshly written SICD files (pixel types x small / 2049- / 8193- / 12000-wide or tall shapes x row limits forcing 1..k segments x '
-                'path / BytesIO / caller file object) and SIDD files (1-3 images x MONO8I/MONO16I/RGB24I x row limits x path / BytesIO), each parsed by the '
+                'path / BytesIO / caller file object), SIDD files (1-3 images x MONO8I/MONO16I/RGB24I x row limits x path / BytesIO) and general NITFWriter files '
+                '(blocked or block-masked image with random absent blocks + text / DES / RES segments x path / BytesIO), each parsed by the '
                 'independent MIL-STD-2500C parser; distinct = distinct (writer, pixel type, shape class, segment-count class, target) tuples',
         'samples': [j[1] for j in jobs[:3]],
         'stats': stats,
@@ -225,7 +317,7 @@ def run(tier):
     chk.assumptions += [
         'harness/nitfparse.py is a hand transcription of the MIL-STD-2500C field tables (file header, image, text, DES, RES subheaders)',
         'IGEOLO is compared with a bilinear interpolation of the metadata corner points to 1.5 arc-seconds (field precision is 1 arc-second)',
-        'general NITFWriter inputs with masked / blocked layouts are exercised only through SICD/SIDD writers in this check',
+        'general NITFWriter family: one single-band IMODE=B image, blocked (IC=NC) or block-masked (IC=NM, random absent blocks), 8/16 bit, plus 0-2 text, 0-2 DES, 0-1 RES segments; multi-band / IMODE P,S,R and pad-pixel masks are not generated',
         'loop -> recursion step for default_image_segmentation (stepTiling) is validated by the segmentation correspondence, not proved',
     ]
     unknown = [f for f in fails if not (f.get('key') and chk.known(f['key']))]
